@@ -48,6 +48,7 @@ type InstrumentReport struct {
 	CritBrackets int         `json:"crit_brackets"`
 	ExprWrapping bool        `json:"expr_wrapping"`
 	AtomicWraps  int         `json:"atomic_wraps"`
+	SimLocks     int         `json:"simulated_locks"`
 	Uncontrolled []Construct `json:"uncontrolled_constructs"`
 }
 
@@ -240,6 +241,17 @@ func instrumentTree(dir, verifsimSrc string, wrapExpr bool) (*InstrumentReport, 
 						continue
 					}
 					switch {
+					case wrapExpr && (sel.Sel.Name == "Lock" || sel.Sel.Name == "RLock") && len(call.Args) == 0:
+						// scheduler-owned blocking: for !mu.TryLock() { verifsim.Blocked(n) }
+						id := next
+						next++
+						rep.Sites = append(rep.Sites, Site{ID: id, File: rel, Line: fset.Position(s.Pos()).Line, Kind: "lock", Func: curFn(), Hot: true})
+						add(s.Pos(), "for !")
+						add(sel.Sel.Pos(), "Try")
+						add(s.End(), fmt.Sprintf("{verifsim.Blocked(%d)}", id))
+						rep.SimLocks++
+					case wrapExpr && (sel.Sel.Name == "Unlock" || sel.Sel.Name == "RUnlock") && len(call.Args) == 0:
+						add(s.End(), ";verifsim.Released()")
 					case (sel.Sel.Name == "Lock" || sel.Sel.Name == "RLock") && len(call.Args) == 0:
 						add(s.Pos(), "verifsim.Crit(1);")
 						rep.CritBrackets++
@@ -256,7 +268,11 @@ func instrumentTree(dir, verifsimSrc string, wrapExpr bool) (*InstrumentReport, 
 						continue
 					}
 					if (sel.Sel.Name == "Unlock" || sel.Sel.Name == "RUnlock") && len(s.Call.Args) == 0 {
-						add(s.Pos(), "defer verifsim.Crit(-1);")
+						if wrapExpr {
+							add(s.Pos(), "defer verifsim.Released();")
+						} else {
+							add(s.Pos(), "defer verifsim.Crit(-1);")
+						}
 					}
 				}
 			}
